@@ -797,13 +797,14 @@ func (e *FEnc) ret(st *State, x *ssa.Return) {
 		if c.When != nil {
 			w, err := e.evalBool(env, c.When)
 			if err != nil {
-				e.unsupported = append(e.unsupported, fmt.Sprintf("%s %q: %v", c.Kind, c.Src, err))
+				e.unsupportedOnce(fmt.Sprintf("%s %q: %v", c.Kind, c.Src, err))
 				continue
 			}
 			g, err := e.evalBool(env, c.Expr)
 			if err != nil {
-				e.unsupported = append(e.unsupported, fmt.Sprintf("%s %q: %v", c.Kind, c.Src, err))
-				continue
+				// the clause mentions locals that do not exist yet at this return: the return must then be
+				// one the clause does not apply to
+				g = "false"
 			}
 			e.obligePart("post", clauseKey(c, c.Kind), c.Props, x.Pos(), c.Src, st.reach, implies(w, g))
 			nret++
@@ -811,10 +812,19 @@ func (e *FEnc) ret(st *State, x *ssa.Return) {
 		}
 		g, err := e.evalBool(env, c.Expr)
 		if err != nil {
-			e.unsupported = append(e.unsupported, fmt.Sprintf("%s %q: %v", c.Kind, c.Src, err))
+			e.unsupportedOnce(fmt.Sprintf("%s %q: %v", c.Kind, c.Src, err))
 			continue
 		}
 		e.obligePart("post", clauseKey(c, c.Kind), c.Props, x.Pos(), c.Src, st.reach, g)
 		nret++
 	}
+}
+
+func (e *FEnc) unsupportedOnce(msg string) {
+	for _, u := range e.unsupported {
+		if u == msg {
+			return
+		}
+	}
+	e.unsupported = append(e.unsupported, msg)
 }
